@@ -98,7 +98,14 @@ def runMkd (f : List String) (got : String) : MkResult :=
       (match implW with
        | some w => if implOk ∧ !Spec.wfData w then
            [⟨"wellformed", "data-" ++ sigBase op.signer, "MakeData output is not a well-formed TLV with exact lengths"⟩] else []
-       | none => [])
+       | none => []) ++
+      -- the SigCovered the API returns must be the signed portion of the wire it returns
+      (match implOk, implW, kv gt "rc" with
+       | true, some w, some rcTxt =>
+         if rcTxt != "nil" ∧ rec.sv.isSome ∧ bytesOfHex rcTxt != some (Spec.signedPortion w) then
+           [⟨"covered-returned", "data-" ++ sigBase op.signer,
+             s!"the SigCovered bytes returned with the packet ({tk rcTxt 80}…) are not the signed portion of the returned wire"⟩] else []
+       | _, _, _ => [])
     let mk : Option Mk :=
       match implOk, implW with
       | true, some w =>
@@ -156,6 +163,13 @@ def runMki (f : List String) (got : String) : MkResult :=
        | some w => if implOk ∧ !Spec.wfInterest w then
            [⟨"wellformed", "interest-" ++ sigBase op.signer, "MakeInterest output is not a well-formed TLV with exact lengths"⟩] else []
        | none => []) ++
+      -- the SigCovered the API returns must be the signed portion of the wire it returns
+      (match implOk, implW, kv gt "rc" with
+       | true, some w, some rcTxt =>
+         if rcTxt != "nil" ∧ rec.sv.isSome ∧ bytesOfHex rcTxt != some (Spec.signedPortion w) then
+           [⟨"covered-returned", "interest-" ++ sigBase op.signer,
+             s!"the SigCovered bytes returned with the packet ({tk rcTxt 80}…) are not the signed portion of the returned wire"⟩] else []
+       | _, _, _ => []) ++
       -- the FinalName the API returns must be the name the returned wire carries
       (match implOk, implW, kv gt "fn" with
        | true, some w, some fnTxt =>
